@@ -377,6 +377,8 @@ func rejectedThenRepaired(f *failer) {
 		func(v any) any { return at.NewObject().Set("k", v) },
 		func(v any) any { return at.NewObject().SetTF(".k", v) },
 		func(v any) any { return at.NewList().SetTF("#0", v) },
+		func(v any) any { return at.NewListFrom([]any{v}) },
+		func(v any) any { return at.NewObjectFrom(map[string]any{"k": v}) },
 	}
 	for _, st := range stores {
 		for _, v := range []any{outer, outerM} {
@@ -386,8 +388,21 @@ func rejectedThenRepaired(f *failer) {
 			}
 		}
 	}
+	if !try(func() { at.NewListFrom(outer) }) || !try(func() { at.NewObjectFrom(outerM) }) || !try(func() { at.NewListFrom(inner) }) || !try(func() { at.NewObjectFrom(innerM) }) {
+		f.fail("NewListFrom / NewObjectFrom accepted a slice or map with an unsupported element")
+		return
+	}
 	inner[1] = 2
 	delete(innerM, "bad")
+	if try(func() {
+		if canon(at.NewListFrom(inner)) != canon(at.NewList(1, 2, "s")) || canon(at.NewObjectFrom(innerM)) != canon(at.NewObject("a", 1)) ||
+			canon(at.NewObjectFrom(outerM).GetList("l")) != canon(at.NewList(1, 2, "s")) || at.NewListFrom(outer).Count() != 3 {
+			f.fail("NewListFrom / NewObjectFrom on a repaired slice or map (rejected once before) builds other content than on a fresh one")
+		}
+	}) {
+		f.fail("NewListFrom / NewObjectFrom panics on a repaired slice or map that was rejected once before")
+		return
+	}
 	want := canon(at.NewList([]any{[]any{1, 2, "s"}, map[string]any{"a": 1}, 2.5}))
 	wantM := canon(at.NewList(map[string]any{"l": []any{1, 2, "s"}, "m": map[string]any{"a": 1}}))
 	for k, st := range stores {
@@ -782,6 +797,9 @@ func genC13(r *R, n int, tier string, out *Out) {
 			return t.toAny()
 		}
 		f := &failer{pred: true}
+		if i%97 == 11 {
+			rejectedThenRepaired(f) // (a conversion that was rejected once leaves nothing behind that a later conversion could trip over)
+		}
 		c := mk()
 		before := canon(c)
 		if before != t.canon() {
